@@ -167,6 +167,43 @@ class SDType(object):
         return 'dtype(%s)' % SDType._INFO[self.kind][2]
 
 
+class SCtxFactory(object):
+    """A generator function decorated with contextlib.contextmanager."""
+
+    def __init__(self, func):
+        self.func = func
+
+
+class SGenCtx(object):
+    """The context manager obtained by calling such a function."""
+
+    def __init__(self, gen):
+        self.gen = gen
+
+
+class SBroken(object):
+    """A callable whose definition uses something outside the subset (an unknown decorator): refused when called."""
+
+    def __init__(self, why):
+        self.why = why
+
+
+def _dotted(node):
+    if isinstance(node, ast.Name):
+        return node.id
+    if isinstance(node, ast.Attribute):
+        b = _dotted(node.value)
+        return None if b is None else b + '.' + node.attr
+    return None
+
+
+class SPartial(object):
+    """functools.partial(f, *args, **kw)."""
+
+    def __init__(self, func, args, kw):
+        self.func, self.args, self.kw = func, args, kw
+
+
 class SFlags(object):
     """`a.flags` of a numpy array (only `.writeable`)."""
 
@@ -301,7 +338,7 @@ class RepoModule(object):
 
 
 BUILTIN_EXC = set(EXC_BASES)
-EXTERNAL_MODULES = ('pyvc', 'numpy', 'scipy', 'warnings', 'copy', 'string', 'itertools', 'math', 'pint',
+EXTERNAL_MODULES = ('pyvc', 'numpy', 'scipy', 'warnings', 'copy', 'string', 'itertools', 'functools', 'contextlib', 'operator', 'math', 'pint',
                     'enum', '__future__', 'os', 'pytest')
 
 
@@ -312,6 +349,16 @@ class Program(object):
         self.repo = repo
         self.modules = {}
         self.extra_roots = {}     # dotted prefix -> directory (for contract files)
+
+    def own_roots(self):
+        if getattr(self, '_own', None) is None:
+            self._own = set(self.extra_roots)
+            for e in os.listdir(self.repo):
+                if os.path.isfile(os.path.join(self.repo, e, '__init__.py')):
+                    self._own.add(e)
+                elif e.endswith('.py'):
+                    self._own.add(e[:-3])
+        return self._own
 
     def find(self, dotted):
         parts = dotted.split('.')
@@ -489,7 +536,9 @@ class Interp(object):
             return SModule(dotted)
         m = self.prog.load(dotted)
         if m is None:
-            raise Unsupported('cannot import %s' % dotted)
+            if root in self.prog.own_roots():
+                raise Unsupported('cannot import %s' % dotted)
+            return SModule(dotted)       # not part of the library: an external module (calls into it need a model)
         self.module_env(m)
         return m
 
@@ -527,7 +576,7 @@ class Interp(object):
         elif isinstance(node, ast.ClassDef):
             env.vars[node.name] = self.make_class(node, env, m)
         elif isinstance(node, ast.FunctionDef):
-            env.vars[node.name] = SFunc(node, m, env)
+            env.vars[node.name] = self.decorated(node, SFunc(node, m, env))
         elif isinstance(node, ast.Assign):
             try:
                 v = run_to_completion(self.ev(node.value, env))
@@ -559,6 +608,20 @@ class Interp(object):
         if full == 'itertools.product':
             return SBuiltin('itertools.product')
         return SBuiltin(full)
+
+    def decorated(self, node, f):
+        """Decorators of plain functions are never ignored: contextlib.contextmanager is modelled, anything else makes
+        the function unusable (refused when it is called)."""
+        mod = f.module if isinstance(f, SFunc) else None
+        if mod is not None and ':' in (getattr(mod, 'relpath', '') or ''):
+            return f                 # sidecar contract files: @contract / @cases / @lemma register the function, they do not wrap it
+        for d in reversed(node.decorator_list):
+            name = _dotted(d)
+            if name in ('contextmanager', 'contextlib.contextmanager') and isinstance(f, SFunc):
+                f = SCtxFactory(f)
+            else:
+                f = SBroken('decorator @%s on %s' % (name or ast.dump(d)[:40], node.name))
+        return f
 
     def make_class(self, node, env, m):
         c = SClass(node.name, m, node, env)
@@ -674,19 +737,17 @@ class Interp(object):
             tst = node.test
             if isinstance(tst, ast.UnaryOp) and isinstance(tst.op, ast.Not):
                 tst = tst.operand
-            def resolve(name, env=env):
-                try:
-                    me = env.lookup('self')
-                except KeyError:
-                    return None
-                f = self.find_method(me.cls, name) if isinstance(me, SObj) else None
-                return f.node if f is not None else None
+            resolve = self._method_resolver(env)
             if isinstance(tst, ast.Name) and _warn_only_if(node, resolve):
                 self.lookup(tst.id, env)
                 return       # the branch only builds and emits a warning (no-op, DESIGN 2.1): no case split
             c = yield from self.ev(tst, env)
-            if is_sym(c) and isinstance(tst, ast.Call) and _warn_only_if(node, resolve):
-                return       # `if [not] np.any(...): <warn>`: test evaluated (it may raise), no case split
+            if is_sym(c) and _warn_only_if(node, resolve):
+                return       # `if [not] <test>: <warn>`: test evaluated (it may raise), no case split
+            if is_sym(c) and getattr(self, 'quiet_yields', 0) and not node.orelse and \
+                    all(isinstance(b, ast.Expr) and isinstance(b.value, ast.Yield) and
+                        (b.value.value is None or _pure_message_expr(b.value.value)) for b in node.body):
+                return       # `if <symbolic>: yield item` feeding a loop that only warns
             if self.truth(c) != (tst is not node.test):          # `not x` is `not truth(x)`
                 yield from self.exec_block(node.body, env)
             else:
@@ -711,9 +772,7 @@ class Interp(object):
         elif t is ast.Try:
             yield from self.exec_try(node, env)
         elif t is ast.With:
-            for item in node.items:
-                yield from self.ev(item.context_expr, env)
-            yield from self.exec_block(node.body, env)
+            yield from self.exec_with(node, 0, env)
         elif t is ast.Continue:
             raise _Continue()
         elif t is ast.Break:
@@ -721,7 +780,7 @@ class Interp(object):
         elif t is ast.Import or t is ast.ImportFrom:
             self.exec_toplevel(node, env, env.module)
         elif t is ast.FunctionDef:
-            env.vars[node.name] = SFunc(node, env.module, env)
+            env.vars[node.name] = self.decorated(node, SFunc(node, env.module, env))
         elif t is ast.AnnAssign:
             if node.value is not None:
                 v = yield from self.ev(node.value, env)
@@ -786,14 +845,100 @@ class Interp(object):
         else:
             yield from self.exec_block(node.orelse, env)
 
+    def _method_resolver(self, env):
+        def resolve(name, env=env):
+            try:
+                me = env.lookup('self')
+            except KeyError:
+                return None
+            f = self.find_method(me.cls, name) if isinstance(me, SObj) else None
+            return f.node if f is not None else None
+        return resolve
+
+    def exec_with(self, node, k, env):
+        """`with a as x, b as y: body`: opaque library managers (np.errstate, warnings.catch_warnings) have no effect on
+        values; an object of the library with __enter__/__exit__ is run as Python does; anything else is refused."""
+        if k == len(node.items):
+            yield from self.exec_block(node.body, env)
+            return
+        item = node.items[k]
+        cm = yield from self.ev(item.context_expr, env)
+        if isinstance(cm, SCtx):
+            if item.optional_vars is not None:
+                yield from self.assign(item.optional_vars, None, env)
+            yield from self.exec_with(node, k + 1, env)
+            return
+        if isinstance(cm, SObj) and self.find_method(cm.cls, '__enter__') is not None and self.find_method(cm.cls, '__exit__') is not None:
+            v = yield from self.call_function(self.find_method(cm.cls, '__enter__'), [cm], {})
+            if item.optional_vars is not None:
+                yield from self.assign(item.optional_vars, v, env)
+            ex = self.find_method(cm.cls, '__exit__')
+            try:
+                yield from self.exec_with(node, k + 1, env)
+            except SymRaise as e:
+                r = yield from self.call_function(ex, [cm, SExcClass(e.name), SExcInst(e.name), None], {})
+                if self.truth(r) if r is not None else False:
+                    return                   # the manager swallowed the exception
+                raise
+            except (_Return, _Break, _Continue):
+                yield from self.call_function(ex, [cm, None, None, None], {})
+                raise
+            yield from self.call_function(ex, [cm, None, None, None], {})
+            return
+        if isinstance(cm, SGenCtx):
+            v = yield from self.next_item(cm.gen)
+            if v is END:
+                raise SymRaise('RuntimeError', "generator didn't yield")
+            if item.optional_vars is not None:
+                yield from self.assign(item.optional_vars, v, env)
+            try:
+                yield from self.exec_with(node, k + 1, env)
+            except SymRaise as e:
+                # the exception is raised inside the generator at its yield; its own try/except/finally decide
+                try:
+                    ev = cm.gen.pygen.throw(e)
+                except StopIteration:
+                    cm.gen.done = True
+                    return               # swallowed
+                except _Return:
+                    cm.gen.done = True
+                    return
+                raise SymRaise('RuntimeError', "generator didn't stop after throw()")
+            except (_Return, _Break, _Continue):
+                after = yield from self.next_item(cm.gen)
+                if after is not END:
+                    raise SymRaise('RuntimeError', "generator didn't stop")
+                raise
+            after = yield from self.next_item(cm.gen)
+            if after is not END:
+                raise SymRaise('RuntimeError', "generator didn't stop")
+            return
+        raise Unsupported('with-statement on %r' % (cm,))
+
     def exec_for(self, node, env):
         it = yield from self.ev(node.iter, env)
         if isinstance(it, SSymRange):
             yield from self.exec_sum_loop(node, env, it)
             return
         loop = self.iterate(it)
+        quiet = False
+        if isinstance(loop, SGen) and not node.orelse:
+            wo = getattr(node, '_warn_only_body', None)
+            if wo is None:
+                fake = ast.If(test=ast.Constant(True), body=node.body, orelse=[])
+                wo = node._warn_only_body = bool(_warn_only_if(fake, self._method_resolver(env)))
+            quiet = wo
         while True:
-            item = yield from self.next_item(loop)
+            if quiet:
+                # the consumer only emits warnings: whether the generator yields an item under a *symbolic* condition
+                # is unobservable, so such conditional yields are not case-split (see the If rule)
+                self.quiet_yields = getattr(self, 'quiet_yields', 0) + 1
+                try:
+                    item = yield from self.next_item(loop)
+                finally:
+                    self.quiet_yields -= 1
+            else:
+                item = yield from self.next_item(loop)
             if item is END:
                 break
             yield from self.assign(node.target, item, env)
@@ -1140,7 +1285,28 @@ class Interp(object):
                 step = yield from self.ev(node.step, env)
             return slice(lo, hi, step)
         if t is ast.JoinedStr:
-            return SStr()
+            parts = []
+            for v in node.values:
+                if isinstance(v, ast.Constant):
+                    parts.append(v.value)
+                else:
+                    x = yield from self.ev(v.value, env)
+                    if v.format_spec is not None or v.conversion != -1 or not isinstance(x, str):
+                        return SStr()          # the text of a formatted number is not modelled
+                    parts.append(x)
+            return ''.join(parts)
+        if t is ast.NamedExpr:
+            v = yield from self.ev(node.value, env)
+            yield from self.assign(node.target, v, env)
+            return v
+        if t is ast.Set:
+            items = []
+            for e in node.elts:
+                x = yield from self.ev(e, env)
+                items.append(x)
+            if any(is_sym(x) for x in items):
+                raise Unsupported('set display with symbolic members')
+            return set(items)
         if t is ast.Starred:
             raise Unsupported('starred expression')
         raise Unsupported('expression %s' % t.__name__)
@@ -1191,6 +1357,8 @@ class Interp(object):
             return {'True': True, 'False': False, 'None': None}[name]
         if name == 'PI':
             return PI
+        if name == '__debug__':
+            return True          # assert statements are executed (assumption A_ASSERT: not run under python -O)
         if ('builtins.' + name) in self.models:
             return SBuiltin('builtins.' + name)
         raise Unsupported('unknown name %s' % name)
@@ -1719,7 +1887,13 @@ class Interp(object):
                     raise SymRaise('IndexError', 'boolean index did not match')
             return SMasked(m, m.snapshot(self.st), a.snapshot(self.st), a.shape, a.dtype)
         if any(isinstance(k, (SArr, list)) for k in key):
-            raise Unsupported('fancy indexing')
+            plan = self._fancy_plan(a, key)
+            sa = a.snapshot(self.st)
+            m = plan['m']
+
+            def fn(idx, plan=plan, sa=sa):
+                return sa(self._fancy_source(plan, idx))
+            return self.st.new_array(plan['shape'], fn, a.dtype)      # advanced indexing returns a copy
         if len(key) > len(a.shape):
             raise SymRaise('IndexError', 'too many indices')
         key = tuple(key) + (slice(None),) * (len(a.shape) - len(key))
@@ -1796,10 +1970,93 @@ class Interp(object):
             return a.elem(self.st, tuple(sp[1] for sp in spec))
         return SArr(a.token, tuple(newshape), fwd, inv, a.dtype)
 
+    def _fancy_plan(self, a, key):
+        """Integer-array indexing a[:, I, J, ...]: full slices and one run of adjacent 1-D integer index arrays of the
+        same *concrete* length m (np.arange(rank), np.triu_indices(rank), lists).  Result dims: the sliced dims with
+        the run replaced by one dim of length m (numpy's rule for adjacent advanced indices)."""
+        key = tuple(key) + (slice(None),) * (len(a.shape) - len(key))
+        if len(key) != len(a.shape):
+            raise SymRaise('IndexError', 'too many indices')
+        adv = [d for d, k in enumerate(key) if isinstance(k, (SArr, list))]
+        if adv != list(range(adv[0], adv[-1] + 1)):
+            raise Unsupported('fancy indexing with separated index arrays')
+        idxs = []
+        m = None
+        for d in adv:
+            k = key[d]
+            k = self.as_array(k) if isinstance(k, list) else k
+            if k.dtype != 'int' or len(k.shape) != 1 or is_sym(k.shape[0]):
+                raise Unsupported('fancy indexing with a non-integer / symbolic-length index array')
+            if m is None:
+                m = int(k.shape[0])
+            elif int(k.shape[0]) != m:
+                raise SymRaise('IndexError', 'shape mismatch: indexing arrays could not be broadcast together')
+            ks = k.snapshot(self.st)
+            idxs.append([ks((j,)) for j in range(m)])
+        for d, k in enumerate(key):
+            if d not in adv and not (isinstance(k, slice) and k.start is None and k.stop is None and k.step is None):
+                raise Unsupported('fancy indexing combined with partial slices / integers')
+        shape = tuple(a.shape[:adv[0]]) + (m,) + tuple(a.shape[adv[-1] + 1:])
+        return {'adv': adv, 'idxs': idxs, 'm': m, 'shape': shape, 'ndim': len(a.shape)}
+
+    def _fancy_source(self, plan, idx):
+        """Index into the indexed array for result index `idx`."""
+        adv, idxs, m = plan['adv'], plan['idxs'], plan['m']
+        j = idx[adv[0]]
+        out = list(idx[:adv[0]])
+        for col in idxs:
+            if is_sym(j):
+                t = col[m - 1]
+                for q in range(m - 2, -1, -1):
+                    t = mk_ite(mk_eq(j, q), col[q], t)
+                out.append(t)
+            else:
+                out.append(col[int(j)])
+        out.extend(idx[adv[0] + 1:])
+        return tuple(out)
+
+    def _fancy_store(self, a, key, v):
+        plan = self._fancy_plan(a, key)
+        adv, idxs, m = plan['adv'], plan['idxs'], plan['m']
+        if isinstance(v, SArr):
+            shape, mappers = self.broadcast([plan['shape'], v.shape])
+            if len(shape) != len(plan['shape']):
+                raise SymRaise('ValueError', 'shape mismatch: value array could not be broadcast to indexing result')
+            for x, y in zip(shape, plan['shape']):
+                if not self.dims_equal(x, y):
+                    raise SymRaise('ValueError', 'shape mismatch: value array could not be broadcast to indexing result')
+            vs, mp = v.snapshot(self.st), mappers[1]
+
+            def val_at(ridx):
+                return vs(mp(ridx))
+        elif is_num(v) or is_boolish(v):
+            def val_at(ridx):
+                return v
+        else:
+            raise Unsupported('fancy-index assignment of %r' % (v,))
+
+        def hit(vi, j):
+            return mk_and(*[mk_eq(vi[d], idxs[n][j]) for n, d in enumerate(adv)])
+
+        def cond(vi):
+            return mk_or(*[hit(vi, j) for j in range(m)])
+
+        def val(vi):
+            out = None
+            for j in range(m):              # numpy: for repeated index tuples the last assignment wins
+                ridx = tuple(vi[:adv[0]]) + (j,) + tuple(vi[adv[-1] + 1:])
+                x = val_at(ridx)
+                out = x if out is None else mk_ite(hit(vi, j), x, out)
+            return out
+        store_write(self.st, a, val, condfn=cond)
+
     def arr_setitem(self, a, key, v):
         v = self.unopt(v)
         if isinstance(v, (list, tuple)):
             v = self.as_array(v)
+        if isinstance(key, tuple) and any(isinstance(k, (SArr, list)) and not (isinstance(k, SArr) and k.dtype == 'bool') for k in key):
+            self._fancy_store(a, key, v)
+            return
         tgt = self.arr_index(a, key) if not (isinstance(key, tuple) and len(key) == 0) else a
         if isinstance(tgt, SMasked):
             m = tgt
@@ -2174,6 +2431,18 @@ class Interp(object):
             return r
         if isinstance(fn, SExcClass):
             return SExcInst(fn.name, tuple(args))
+        if isinstance(fn, SBroken):
+            raise Unsupported(fn.why)
+        if isinstance(fn, SCtxFactory):
+            g = yield from self.call(fn.func, list(args), kwargs)
+            if not isinstance(g, SGen):
+                raise SymRaise('TypeError', 'contextmanager on a non-generator')
+            return SGenCtx(g)
+        if isinstance(fn, SPartial):
+            kk = dict(fn.kw)
+            kk.update(kwargs)
+            r = yield from self.call(fn.func, list(fn.args) + list(args), kk)
+            return r
         if isinstance(fn, SBuiltin):
             m = self.models.get(fn.name)
             if m is None:
